@@ -252,6 +252,8 @@ class MemBackend(_Common, short_name='vfmem'):
                 data = self.store.objects[name]
             except KeyError:
                 raise FileNotFoundError(2, f'no such object {name}')
+            if self.store.garble is not None:
+                data = self.store.garble(name, data)
             try:
                 stream.truncate(len(data))
                 for i in range(0, len(data), chunk_size):
@@ -347,6 +349,8 @@ class AsyncMemBackend(_Common, short_name='vfamem'):
                 data = self.store.objects[name]
             except KeyError:
                 raise FileNotFoundError(2, f'no such object {name}')
+            if self.store.garble is not None:
+                data = self.store.garble(name, data)
             try:
                 stream.truncate(len(data))
                 for i in range(0, len(data), chunk_size):
